@@ -195,20 +195,20 @@ pub fn run_c03(ctx: &mut Ctx) {
     let lvl = ctx.cfg_label();
     // public APIs under this worker's level / build configuration
     for v in 0..7 {
-        let n = ctx.count(12_000, 100_000);
+        let n = ctx.count(12_000, 400_000);
         let l = lvl.clone();
         ctx.run(&format!("chacha/{}", refmodels::chacha::VARIANTS[v].name), n, chacha_stream::c01_strategy(v), move |c, i| {
             i.label(format!("configuration {}", l));
             relabel(chacha_stream::c01_check(c, i), "api")
         });
     }
-    let n = ctx.count(40_000, 400_000);
+    let n = ctx.count(40_000, 1_500_000);
     ctx.run("chacha-guts", n, chacha_guts::c14_strategy(), |c, i| relabel(chacha_guts::c14_check(c, i), "api"));
     for fam in [hashes::Family::Blake, hashes::Family::Jh] {
         let specs = hashes::by_family(fam);
         let names: Vec<String> = specs.iter().map(|s| s.name.clone()).collect();
         let blocks: Vec<usize> = specs.iter().map(|s| s.block).collect();
-        let n = ctx.count(if fam == hashes::Family::Blake { 40_000 } else { 6_000 }, if fam == hashes::Family::Blake { 400_000 } else { 60_000 });
+        let n = ctx.count(if fam == hashes::Family::Blake { 40_000 } else { 6_000 }, if fam == hashes::Family::Blake { 1_500_000 } else { 200_000 });
         let strat = (0..names.len(), any::<u64>(), any::<u16>(), crate::gen::pattern()).prop_map(move |(h, seed, l, pat)| hashes::ConfCase {
             hash: names[h].clone(),
             msg: crate::gen::Msg { seed, len: (l as usize) % (5 * blocks[h] + 1), pat },
@@ -218,7 +218,7 @@ pub fn run_c03(ctx: &mut Ctx) {
         ctx.run(&format!("digest/{:?}", fam), n, strat, move |c, i| relabel(hashes::conf_check("digest", &s2, c, i), "api"));
     }
     // generic bodies instantiated per Machine (all back ends of this build in one case)
-    let n = ctx.count(15_000, 200_000);
+    let n = ctx.count(15_000, 800_000);
     ctx.run("direct-instantiation", n, direct_strategy(), direct_check);
 }
 
